@@ -138,13 +138,14 @@ STREAM_FILES = {
     'syndef': {'ref': 'syndef_v1', 'names': ['syndef_v1', 'syndef_a1']},
     'synmk': {'ref': 'synmk_v1', 'names': ['synmk_v1', 'synmk_a1']},
     'syntrk': {'ref': 'syntrk_v1', 'names': ['syntrk_v1', 'syntrk_a1']},
+    'synzero': {'ref': 'synzero_v1', 'names': ['synzero_v1', 'synzero_a1']},
 }
 
 
 def plan(tier):
     items = []
     # synthetic layouts (irregular durations, non-zero first decode time, no tfdt): tiny loops, full K
-    for stream in ('synirr', 'synoff', 'synnot', 'synwild', 'synnum', 'syndef', 'syntrk'):
+    for stream in ('synirr', 'synoff', 'synnot', 'synwild', 'synnum', 'syndef', 'syntrk', 'synzero'):
         for tmpl in ('hand_made', 'manifest_e', 'manifest_n', 'manifest_a'):
             for opts in ({'start': 'explicit', 'depth': '30'}, {'start': 'explicit', 'depth': '8', 'leeway': '0'},
                          {'start': 'explicit', 'depth': '30', 'timeline': '1'},
